@@ -39,6 +39,37 @@ CLAIMS = {
          "it failed without the connection quitting; Recv appends each received chunk to the kept partial buffer, returns only after a final chunk "
          "and never drops consumed chunks on a timeout.",
          "append is modelled as always allocating; transport faults are C01's matter."),
+ "C08": ("Cipher-state contracts proved for every state and every record: Encrypt and Decrypt each perform exactly one AEAD operation under the "
+         "current (secretKey, nonce) pair (ghost seal/open log), then advance the state by the same spec function csnext - nonce+1, or at "
+         "nonce+1 == keyRotationInterval the counter restarts and (salt, key) become the next two HKDF blocks of (key, salt) - so sender and receiver "
+         "rotate at the same operation count by construction; the invariant nonce < keyRotationInterval and 'the AEAD object is keyed with secretKey' "
+         "holds after every operation; WriteMessage performs exactly two seals (2-byte length, body), and what it queues for the wire are exactly the "
+         "outputs of those two seals (never p itself); ReadHeader/ReadBody/ReadMessage open with the receive pair and advance it identically.",
+         "Freshness across rotations (HKDF outputs never repeat), ciphertext indistinguishability and 'equal plaintexts give different ciphertexts' are "
+         "properties of ChaCha20-Poly1305/HKDF, idealised as uninterpreted functions of fingerprints of their inputs; the unbounded-history statement follows "
+         "from the per-operation clauses by induction on the record count (paper step in DESIGN.md), it is not a machine-checked lemma. The handshake-time "
+         "auth payload clause is not covered."),
+ "C15": ("Read/Write contracts of NoiseGrpcConn, NoiseConn and connKit proved for every buffer length and record size: 0 <= n <= len(b); while unread "
+         "plaintext is buffered (nextMsg / readBuf / recvBuffer) a Read performs no decryption and splits the buffer exactly - old buffer == b[:n] ++ new "
+         "buffer, n > 0 for a non-empty b; a freshly decrypted record is handed out as b[:n] ++ kept tail (point assertions at the return statements); "
+         "Write returns n == len(b) iff it succeeded, rejects > 65535 bytes on the gRPC variant without emitting anything, chunks at 65535 on the TCP "
+         "variant (loop invariant), and WriteMessage/Flush never truncate (exact wire-length accounting); connKit.Write reports 0 on error.",
+         "bytes.Buffer is modelled (Read/Write/Len/Reset on an abstract byte sequence); the GBN connection under connKit is abstracted by its contract; "
+         "concatenation over whole histories follows from the per-call split clauses by induction (paper step)."),
+ "C16": ("Flush is verified against an exact contract for every partition of the pending record into partial writes: it emits on the ghost wire exactly the "
+         "next unsent bytes of header then body, in order, once (quantified over the wire log), keeps suffixes of the pending buffers, does not touch the "
+         "body while header bytes remain, and reports exactly the plaintext bytes among the body bytes it emitted (MAC bytes subtracted); WriteMessage "
+         "returns ErrMessageNotFlushed and changes nothing while a record is pending. Short reads: an obligation is generated for every call of an "
+         "io.Reader's Read whose byte count is not used (the handshake parser and the record reader must go through io.ReadFull).",
+         "The handshake outcome as a function of fragmentation is covered only through the short-read obligation (every field is read with io.ReadFull, "
+         "whose model returns either all bytes or an error); partial-write schedules are all writers satisfying the io.Writer contract 0 <= n <= len(p), n < len(p) => err != nil."),
+ "C17": ("Mnemonic codec: the two bit-stream loops are verified with loop invariants against an 11-bit-per-word spec for all 14-byte entropies and all "
+         "index sequences; the lemma functions lemmaMnemonicRoundTrip / lemmaPhraseRoundTrip prove decode(encode(e)) == e on the 110 significant bits and "
+         "encode(decode(words)) == words; the word-table axiom (2048 distinct words, index lookup inverse) is checked by an executable test on every run. "
+         "Rendezvous: GetSID flips exactly the last bit for the server-to-client direction; NewClientConn/NewServerConn assign receive/send SIDs so that "
+         "client.send == server.receive and client.receive == server.send and the two directions differ (lemmaSIDDirections), for every 64-byte SID.",
+         "That both sides compute the same 64-byte SID from the same secret and different ones from different secrets rests on SHA-512/HMAC/ECDH "
+         "(commutativity of ECDH and collision resistance are assumed, not proved); ConnData.SID itself is not under contract."),
  "C18": ("Race freedom as a schedule-independent permission discipline: every shared mutable field of queue, syncer, TimeoutManager, TimeoutBooster, "
          "IntervalAwareForceTicker and GoBackNConn is declared guarded_by a mutex / atomic / immutable / owned_by a goroutine role, and an obligation is "
          "generated and discharged at every access (lock held in the right mode, object not yet shared, or role matches); every Lock respects the "
